@@ -127,7 +127,20 @@ class _Sock:
         self.sent = []
         self.closed = False
 
-    def recv(self, n):
+    def recv_into(self, buffer, nbytes=0, flags=0):
+        mv = memoryview(buffer).cast("B")
+        data = self.recv(nbytes or len(mv))
+        mv[:len(data)] = data
+        return len(data)
+
+    def send(self, data):
+        self.sendall(data)
+        return len(data)
+
+    def shutdown(self, how=0):
+        pass
+
+    def recv(self, n, flags=0):
         if self.off >= len(self.stream):
             self.sched.emit(op="exit", p=self.peer)
             self.thread.exit_event.flag = True
@@ -168,7 +181,7 @@ class _ConnSock(_Sock):
     def getsockname(self):
         return ("127.0.0.1", 50000 + self.peer)
 
-    def recv(self, n):
+    def recv(self, n, flags=0):
         if self.off >= len(self.stream):
             self.sched.emit(op="exit", p=self.peer)
             self.thread.exit()          # PeerThread.exit(): sets the real exit_event
